@@ -182,7 +182,8 @@ def record_corpus(src: str, FST, back: bool = False) -> list | None:
                                                                                      ast.GeneratorExp)) else []
         tpn += [tp.name for x in ast.walk(a) if isinstance(x, ast.TypeAlias) for tp in x.type_params]
         ss = f.scope_symbols(full=True)
-        pf = {cat: sorted(n for n in ss.get(cat, {}) if n.isascii() and not MANGLED.match(n)) for cat in CATS}
+        pf = {cat: sorted(n for n in ss.get(cat, {}) if n.isascii() and not MANGLED.match(n) and not IMPLICIT.match(n))
+              for cat in CATS}
         kind = {'Module': 'module', 'ClassDef': 'class', 'Lambda': 'lambda', 'GeneratorExp': 'genexpr'}.get(
             a.__class__.__name__, 'function')
         asc = lambda s: sorted(n for n in s if n.isascii())  # noqa: E731
